@@ -25,7 +25,7 @@ NOTES = {
     "C16_f": "first evaluation: NOT detected (two concurrent Injects sharing a static buffer; outside the 'inputs' quantifier); C16 got PINJ cases on the scheduler shim - caught",
     "C07_e": "Aggregate() moved outside the storage lock (a record/collect race): outside C07's quantifier (no schedules); caught by C06's SRACE cases",
     "C08_f": "same defect as C07_e/C06_e: outside C08's quantifier; caught by C06",
-    "C09_e": "unsynchronised ToHeader memo (two threads): outside C09's quantifier (inputs only); not detected - recorded as a limit of the check",
+    "C09_e": "first evaluation: NOT detected (unsynchronised ToHeader memo, two threads; outside C09's 'inputs' quantifier, no scheduling point for the shim); C09 got a ThreadSanitizer purity probe of the model's purity assumption (harness/purity, commit 1322965) - caught (purity:data_race)",
     "C09_f": "hex table halved, out-of-bounds only where plain char is unsigned: on this platform the property holds; the constants translator no longer finds the 256-entry table -> reported as a broken tie with no-failing-input-found",
     "C03_f": "first evaluation: only 'no-failing-input-found'; structured periodic schedules (collect thread stopped inside Export, worker time-out, next cycle) - concrete (export:overlap)",
     "C01_a": "the change is in CircularBuffer::Add: caught by C11 (ring under the shim); C01 runs use the queue as an atomic FIFO (one scheduling point per queue call) by design and cannot see it",
